@@ -176,7 +176,8 @@ Proof.
                <= alloc_size rz (if buffered && outb then compressBound (N.min mbs w2) + 1 else 0)).
   { apply alloc_size_mono. destruct (buffered && outb); [ | lia ].
     pose proof (compressBound_mono _ _ Hb' Hbm). lia. }
-  fold w1 w2 b1 b2. lia.
+  fold w1 w2 b1 b2.
+  repeat first [ apply N.le_refl | assumption | apply N.add_le_mono | apply N.mul_le_mono_l ].
 Qed.
 
 (* ------------------------------------------------------------------ *)
@@ -238,11 +239,6 @@ Qed.
 
 Definition level_covered (l L : Z) : Prop := (0 <= l <= L)%Z /\ (l = 0%Z -> (3 <= L)%Z).
 
-Section Lift.
-  Variable rz : N.
-  Hypothesis SO : sweep_oneshot rz = true.
-  Hypothesis SS : sweep_stream rz = true.
-
   Lemma lift_common l L s : level_covered l L -> s <= UNKNOWN ->
     In (level_row l) (tl rows) /\ In (cls_of s) all_classes /\ In (Z.of_N (level_row l)) (level_range L).
   Proof.
@@ -252,10 +248,10 @@ Section Lift.
     destruct (Z.eq_dec l 0) as [E | E]; [ rewrite (R4 E); specialize (H3 E); lia | ]. specialize (R3 ltac:(lia)). lia.
   Qed.
 
-  Lemma estimate_covers_levels_oneshot l L s : level_covered l L -> s <= UNKNOWN ->
+  Lemma estimate_covers_levels_oneshot rz l L s : sweep_oneshot rz = true -> level_covered l L -> s <= UNKNOWN ->
     need_simple rz l s <= estimateCCtxSize rz L /\ need_compress2 rz l s <= estimateCCtxSize rz L.
   Proof.
-    intros HC Hs. destruct (lift_common l L s HC Hs) as (R & C & I). destruct HC as [[H0 _] _].
+    intros SO HC Hs. destruct (lift_common l L s HC Hs) as (R & C & I). destruct HC as [[H0 _] _].
     unfold sweep_oneshot in SO. rewrite forallb_forall in SO. specialize (SO _ R).
     rewrite forallb_forall in SO. specialize (SO _ C). apply andb_true_iff in SO. destruct SO as [S1 S2].
     apply N.leb_le in S1. apply N.leb_le in S2.
@@ -269,10 +265,10 @@ Section Lift.
       unfold need_compress2_cls, stream2_params_cls in S2. lia.
   Qed.
 
-  Lemma estimate_covers_levels_stream l L s : level_covered l L -> s <= UNKNOWN ->
+  Lemma estimate_covers_levels_stream rz l L s : sweep_stream rz = true -> level_covered l L -> s <= UNKNOWN ->
     need_stream rz l s <= estimateCStreamSize rz L.
   Proof.
-    intros HC Hs. destruct (lift_common l L s HC Hs) as (R & C & I). destruct HC as [[H0 _] _].
+    intros SS HC Hs. destruct (lift_common l L s HC Hs) as (R & C & I). destruct HC as [[H0 _] _].
     unfold sweep_stream in SS. rewrite forallb_forall in SS. specialize (SS _ R).
     rewrite forallb_forall in SS. specialize (SS _ C). apply N.leb_le in SS.
     pose proof (estimateCStreamSize_ge rz _ L I) as G.
@@ -280,4 +276,3 @@ Section Lift.
     eapply N.le_trans; [ apply session_need_mono; [ exact Hs | reflexivity ] | ].
     unfold need_stream_cls, stream2_params_cls in SS. lia.
   Qed.
-End Lift.
